@@ -59,7 +59,7 @@ CLAUSE → THEOREMS (what remains outside)
      the stored index (unit, raw int64 count of the UTC instant, UTC offset of each stamp) is part of the model
      (`wrapperIdx`, `seriesIdx`).
    outside: pandas/numpy do compute `raw`, the offsets and the final `date_range` (external; the correspondence
-   compares the seconds handed to the kernel with `wallSec` for every unit/zone, offsets taken from zoneinfo, and
+   compares `wallSec` with the wall-clock seconds the index was built from for every unit/zone, offsets from zoneinfo, and
    the returned index with the model's `labels`).
 6. quantifier "≥ 2 observations, ≥ 2 periods, integer-second stamps, duplicates, stamps on boundaries, any
    values, P ∈ {1800,3600}, rainfall flag, maxgapsec ≥ 3600": hypotheses `Sorted`, two leading observations,
